@@ -123,6 +123,18 @@ def coeffs(a):
                 d = max(abs(mp.mpf(e) - (x + 500000)), abs(mp.mpf(n) - (y + fn)))
                 if d > worst:
                     worst, where = d, (sa, sf, lat, dl)
+    # ellipsoids sharing 1/f but not the semi-major axis, used one after the other in this process (either order)
+    for seq in (((6378160.0, 298.25), (6378145.0, 298.25)), ((6400000.0, 300.0), (6300000.0, 300.0), (6400000.0, 300.0))):
+        for (sa, sf) in seq:
+            ell = gc.Ellipsoid(sa, sf)
+            o = T.oracle(sa, sf)
+            for lat, dl in ((-35.0, 2.0), (60.0, -20.0)):
+                h, z, e, n, psf, gconv = geo2grid(lat, 3.0 + dl, 31, ell)
+                x, y = T.forward(o, lat, dl, 0.9996)
+                fn = 10000000 if h == 'South' else 0
+                d = max(abs(mp.mpf(e) - (x + 500000)), abs(mp.mpf(n) - (y + fn)))
+                if d > worst:
+                    worst, where = d, ('after another ellipsoid with the same 1/f', sa, sf, lat, dl)
     return worst > 2e-4, 'series coefficients: geo2grid deviates from the exact projection by %.3e m at %s' % (float(worst), where)
 
 
